@@ -401,10 +401,12 @@ class Evaluator(object):
                 return self._dyn(call)
             args = [ev(a) for a in call.args]
             if isinstance(base, str) and f.attr in ("split", "replace", "format", "lower", "upper", "strip", "join"):
-                if any(isinstance(a, Dyn) for a in args):
+                kwargs = {k.arg: ev(k.value) for k in call.keywords if k.arg}
+                if any(isinstance(a, Dyn) for a in args) or any(isinstance(a, Dyn) for a in kwargs.values()) \
+                        or any(k.arg is None for k in call.keywords):
                     return self._dyn(call)
                 try:
-                    return getattr(base, f.attr)(*args)
+                    return getattr(base, f.attr)(*args, **kwargs)
                 except Exception as e:
                     raise CannotEval("%s: %s" % (norm(call), e))
             if isinstance(base, dict) and f.attr in ("keys", "values", "items") and not args:
